@@ -10,7 +10,7 @@ from concurrent.futures import ThreadPoolExecutor
 from . import gen, verus
 
 VERIF = os.path.dirname(os.path.dirname(os.path.abspath(__file__)))
-WORK = os.path.join(VERIF, '.work')
+WORK = os.environ.get('VERIF_WORK') or os.path.join(VERIF, '.work')   # (VERIF_WORK: scratch experiments only)
 REPO = os.environ.get('VERIF_REPO', '/repo')
 
 TAG_RE = re.compile(r'//\s*\[((?:C\d+[ ,]*)+)\]')
